@@ -141,7 +141,6 @@ Definition x_of (o : hobs) : xobs :=
   | OOk => XOk
   | OErrNoRollout => XErrNoRollout
   | OServed id => XServed id
-  | OUnavailable => XStatus 503
   end.
 
 Definition hist_model (id : nat) (cmds : list hcmd) : list xobs := map x_of (snd (hrun (init_svc id) cmds)).
@@ -151,26 +150,9 @@ Definition hist_spec (id : nat) (cmds : list hcmd) : list xobs := map x_of (snd 
 Definition hist_monitor (id : nat) (cmds : list hcmd) (o : list xobs) : bool :=
   list_eqb xobs_eqb (hist_spec id cmds) o.
 
-(** Agreement: the observation is what the model of the pinned code gives.
-    On histories where that model departs from the property (restart without
-    rollout targets, finding D6) an observation that follows the property is
-    accepted as well, so that a repair of D6 in the code is not reported as a
-    disagreement. *)
+(** Agreement: the observation is what the model gives. *)
 Definition hist_agree (id : nat) (cmds : list hcmd) (o : list xobs) : bool :=
-  list_eqb xobs_eqb (hist_model id cmds) o || list_eqb xobs_eqb (hist_spec id cmds) o.
-
-(** Pattern of finding D6: some restart happens while no rollout targets
-    exist, and the observation is exactly the pinned model's. *)
-Fixpoint restart_without_targets (s : spec_state) (cmds : list hcmd) : bool :=
-  match cmds with
-  | [] => false
-  | c :: r =>
-    (is_restart c && match ss_targets s with None => true | Some _ => false end)
-    || restart_without_targets (fst (spec_step s c)) r
-  end.
-
-Definition d6_pattern (id : nat) (cmds : list hcmd) (o : list xobs) : bool :=
-  restart_without_targets (init_spec id) cmds && list_eqb xobs_eqb (hist_model id cmds) o.
+  list_eqb xobs_eqb (hist_model id cmds) o.
 
 (** ** Cases and verdicts *)
 
@@ -185,12 +167,6 @@ Definition check_case (c : c10_case) : bool * bool :=
   | CaseHist id cmds o => (hist_agree id cmds o, hist_monitor id cmds o)
   end.
 
-Definition known_d6 (c : c10_case) : bool :=
-  match c with
-  | CaseHist id cmds o => d6_pattern id cmds o
-  | _ => false
-  end.
-
 Fixpoint failures_aux (cs : list c10_case) (n : nat) : list (nat * bool * bool) :=
   match cs with
   | [] => []
@@ -199,14 +175,6 @@ Fixpoint failures_aux (cs : list c10_case) (n : nat) : list (nat * bool * bool) 
     if a && m then failures_aux r (S n) else (n, a, m) :: failures_aux r (S n)
   end.
 Definition failures (cs : list c10_case) := failures_aux cs 0.
-
-(** Indices of the failing cases that match the D6 pattern. *)
-Fixpoint d6_aux (cs : list c10_case) (n : nat) : list nat :=
-  match cs with
-  | [] => []
-  | c :: r => if known_d6 c then n :: d6_aux r (S n) else d6_aux r (S n)
-  end.
-Definition d6_cases (cs : list c10_case) := d6_aux cs 0.
 
 (** What the model decides, for the coverage report: per split case, the
     number of (percentage, request) decisions on the rollout side. *)
